@@ -59,6 +59,10 @@ def gen_params(rng):
         "with_pl": rng.random() < 0.3,
         "unsorted_gt": rng.choice([0.0, 0.3]),
     }
+    if rng.random() < 0.3:
+        # contig names that contain one another (chr1 / chr11 / chr111; 1 / 21 / 2)
+        p["chrom_names"] = rng.choice([["chr11", "chr1", "chr111"], ["chr1", "chr11", "chr111"], ["21", "1", "2"]])
+    names = (p.get("chrom_names") or ["chr%d" % (i + 1) for i in range(3)])[: p["n_chrom"]]
     if p["with_pl"]:
         # VCF genotypes that disagree with the reads, so that --distrust-genotypes really changes calls (het->hom, hom->het)
         p["gt_noise"] = rng.choice([(0.0, 0.0), (0.25, 0.0)])
@@ -67,7 +71,7 @@ def gen_params(rng):
     if rng.random() < 0.4 and not ped:
         opts["samples"] = rng.sample(samples, rng.randint(1, len(samples)))
     if rng.random() < 0.4 and p["n_chrom"] > 1:
-        opts["chromosomes"] = rng.sample(["chr%d" % (i + 1) for i in range(p["n_chrom"])], rng.randint(1, p["n_chrom"] - 1))
+        opts["chromosomes"] = rng.sample(names, rng.randint(1, p["n_chrom"] - 1))
     if p["with_pl"] and rng.random() < 0.6:
         opts["distrust_genotypes"] = True
     if ped:
